@@ -183,6 +183,50 @@ pub fn optimize_raw(png: PngImage, opts: &Options, max_size: Option<usize>) -> O
     })
 }
 
+/// Winner of an evaluator run
+#[derive(Debug, Clone)]
+pub struct EvalOutcome {
+    pub nth: usize,
+    pub filter: RowFilter,
+    pub estimated_output_size: usize,
+    pub image: PngImage,
+    pub data: Vec<u8>,
+    pub data_is_compressed: bool,
+}
+
+/// Create an `Evaluator`, submit `images` in order and collect the best candidate
+pub fn run_evaluator(
+    images: Vec<PngImage>,
+    filters: Vec<RowFilter>,
+    deflater: Deflaters,
+    optimize_alpha: bool,
+    final_round: bool,
+    best_size: Option<usize>,
+) -> Option<EvalOutcome> {
+    let deadline = Arc::new(Deadline::new(None));
+    let eval = crate::evaluate::Evaluator::new(
+        deadline,
+        filters.into_iter().collect(),
+        deflater,
+        optimize_alpha,
+        final_round,
+    );
+    if let Some(size) = best_size {
+        eval.set_best_size(size);
+    }
+    for image in images {
+        eval.try_image(Arc::new(image));
+    }
+    eval.get_best_candidate().map(|c| EvalOutcome {
+        nth: c.verif_nth(),
+        filter: c.filter,
+        estimated_output_size: c.estimated_output_size,
+        image: (*c.image).clone(),
+        data: c.data,
+        data_is_compressed: c.data_is_compressed,
+    })
+}
+
 /// The palette-sorting internals
 pub mod palette_internals {
     pub use crate::reduction::palette::verif_internals::*;
